@@ -127,7 +127,7 @@ func VerifC06_s1_alt() {
 func VerifC06_s1_inherit_open() {
 	a := &recAuther{basicOK: nondetBool("basic-ok"), jwtOK: nondetBool("jwt-ok"), keyOK: nondetBool("key-ok")}
 	eps := svc.NewEndpoints(a)
-	user, pass := nondetStringUpTo("user", 2), nondetStringUpTo("pass", 2)
+	user, pass := nondetStringUpTo("user", deep(2)), nondetStringUpTo("pass", deep(2))
 	_, err := eps.Inherit(context.Background(), &svc.InheritPayload{User: user, Pass: pass})
 	verifAssert("inherited-requirement-enforced", (a.inheritRan == 1) == a.basicOK && (err == nil) == a.basicOK)
 	verifAssert("inherited-basic-credentials", a.basicCalls == 1 && a.user == user && a.pass == pass)
@@ -142,10 +142,10 @@ func VerifC06_s1_inherit_open() {
 func VerifC06_s1_alt_http() {
 	a := &recAuther{basicOK: false, jwtOK: true, keyOK: true}
 	p := &svc.AltPayload{}
-	user, pass := nondetStringUpTo("user", 2), nondetStringUpTo("pass", 2)
+	user, pass := nondetStringUpTo("user", deep(2)), nondetStringUpTo("pass", deep(2))
 	verifAssume(!strings.Contains(user, ":"))
 	p.User, p.Pass = &user, &pass
-	token := nondetString("token", 1) + nondetStringUpTo("token-tail", 3)
+	token := nondetString("token", 1) + nondetStringUpTo("token-tail", deep(3))
 	if nondetBool("token-with-two-blanks") {
 		token = nondetString("t1", 1) + " " + nondetString("t2", 1) + " " + nondetString("t3", 1)
 	}
